@@ -211,10 +211,11 @@ theorem replay_same_verdict (H : Nat → Nat) (cfg : Cfg) (evs : List Event)
 /-! ### meaning of the recorded terms -/
 
 /-- the payment-address test of the code for a new htlc: MPP record → its address equals the
-    invoice's; no MPP record → the invoice does not require an address or the call is a valid
+    invoice's; blinded path without MPP record → the path ID equals the invoice's address;
+    neither → the invoice does not require an address or the call is a valid
     keysend (the sender knows the preimage). -/
 def authCheck (H : Nat → Nat) (ctx : Ctx) (inv : Invoice) : Bool :=
-  match ctx.mpp with
+  match effMpp ctx with
   | some (_, a) => decide (a = inv.payAddr)
   | none => validKeysend H ctx || !inv.payAddrReq
 
@@ -227,7 +228,7 @@ theorem accepted_htlc_terms {H : Nat → Nat} {ctx : Ctx} {inv : Invoice} {g : H
     (hrec : findHtlc (inotify H ctx inv).1 ctx.key = some g) :
     g.amt = ctx.amt ∧ g.expiry = ctx.expiry ∧ g.acceptHeight = ctx.height ∧
     g.acceptTime = ctx.now ∧
-    g.mppTotal = (match ctx.mpp with | some (t, _) => t | none => 0) ∧
+    g.mppTotal = (match effMpp ctx with | some (t, _) => t | none => 0) ∧
     g.authOk = authCheck H ctx inv := by
   have hr : replay H ctx inv = none := by unfold replay; simp [hfresh]
   unfold inotify at hrec
@@ -260,7 +261,7 @@ theorem accepted_htlc_terms {H : Nat → Nat} {ctx : Ctx} {inv : Invoice} {g : H
         by_cases c : (ctx.amp && ctx.mpp.isNone) = true
         · simp [c] at hu
         · rw [if_neg c] at hu
-          cases hm : ctx.mpp with
+          cases hm : effMpp ctx with
           | none =>
             rw [hm] at hu; simp only at hu
             obtain ⟨_, _, _, _, _, _, _, hh, _⟩ := updateLegacy_add hu
@@ -279,10 +280,11 @@ def exH : Nat → Nat := fun p => p + 1000
 def exCfg : Cfg := { rejectDelta := 4, acceptKeysend := false, ksHold := false, hold := 30, sql := false }
 def exInv : InvSpec :=
   { hash := 1007, value := 100, payAddr := 55, preimage := some 7, finalCltv := 9, tlv := true,
-    payAddrOpt := false, payAddrReq := true, mppOpt := true, ampReq := false, hodl := false }
+    payAddrOpt := false, payAddrReq := true, mppOpt := true, ampReq := false, blinded := false,
+    hodl := false }
 def exShard (key amt : Nat) : Ctx :=
   { hash := 1007, key := key, amt := amt, expiry := 120, height := 100, rejectDelta := 0,
-    mpp := some (100, 55), amp := false, ks := none, now := 0 }
+    mpp := some (100, 55), pathID := none, total := 0, amp := false, ks := none, now := 0 }
 
 /-- two shards of 60 + 40 towards a 100 msat invoice: the second call settles with preimage 7,
     the first shard is settled through its hodl subscription. -/
@@ -305,6 +307,20 @@ example :
 example :
     (step exH exCfg (run exH exCfg Reg.empty [.addInvoice exInv, .notify (exShard 1 60), .tick 30])
       (.notify (exShard 1 60))).2.reply = .res (.fail .replayToCanceled 100) := by
+  decide
+
+def exBlinded (path : Nat) : Ctx :=
+  { hash := 1007, key := 5, amt := 100, expiry := 120, height := 100, rejectDelta := 0,
+    mpp := none, pathID := some path, total := 100, amp := false, ks := none, now := 0 }
+
+/-- blinded-path htlc (no MPP record): the path ID is the address that is compared. The right
+    path ID settles; a foreign one is refused (kv store: the lookup falls back to the hash index,
+    `updateMpp` is the guard). -/
+example :
+    (step exH exCfg (run exH exCfg Reg.empty [.addInvoice exInv]) (.notify (exBlinded 55))).2.reply
+      = .res (.settle .settled 7 100) ∧
+    (step exH exCfg (run exH exCfg Reg.empty [.addInvoice exInv]) (.notify (exBlinded 56))).2.reply
+      = .res (.fail .addressMismatch 100) := by
   decide
 
 /-- the hypotheses of the theorems are satisfiable: the events above add no AMP invoice. -/
